@@ -2,7 +2,8 @@
    Only statements; proofs are in Cfg/Pipeline_proofs.v and Cfg/GoMod_proofs.v.
    Model: Cfg/Pipeline.v ([run w ord] = (exit class, final file system); [ord] is the
    iteration order of the output-file map), Cfg/GoMod.v (the go.mod reader).
-   The model describes the tree with the repairs fixes/c09-*.diff. *)
+   The model describes /repo with the repairs of fixes/ applied (in particular c09-*.diff and
+   c08-file-level-config.diff: the settings of an output file are those of its first mock). *)
 From Mk Require Import Lib.Bytes Cfg.Fs Cfg.GoMod Cfg.Pipeline Cfg.Pipeline_proofs Cfg.GoMod_proofs.
 
 (* mockery never terminates by an unrecovered panic: for every world and every order.
@@ -79,10 +80,10 @@ Definition ex_req : request :=
   {| q_iface := B "I"; q_tstatus := TOk; q_key := B "/m/a/mocks_test.go";
      q_path := [B "m"; B "a"; B "mocks_test.go"];
      q_pkgname := B "a"; q_template := B "testify";
+     q_require_schema := true; q_schema_ok := true; q_force := false; q_formatter := FGoimports;
      q_prep_ok := true; q_data_ok := true; q_exec_ok := true |}.
-Definition ex_cfg : pkgcfg :=
-  {| c_tstatus := TOk; c_tkind := TBuiltin; c_tfound := true; c_tparses := true;
-     c_require_schema := true; c_schema_ok := true; c_data_ok := true; c_force := false |}.
+Definition ex_cfg : pkgcfg := {| c_tstatus := TOk |}.
+Definition ex_tinfo : str -> tinfo := fun _ => {| ti_kind := TBuiltin; ti_found := true; ti_parses := true |}.
 Definition ex_pkg (listed : list str) : package :=
   {| p_path := B "example.com/m/a"; p_nfiles := 1; p_nerrors := 0;
      p_decls := [ {| d_name := B "I"; d_reqs := [ex_req] |} ];
@@ -92,8 +93,8 @@ Definition ex_fs : fs := fun p =>
   else if path_eqb p [B "m"; B "go.mod"] then Some (File (B "module example.com/m"))
   else None.
 Definition ex_world (listed : list str) : world :=
-  {| w_cfg := CfgOk; w_roots := []; w_exclude := []; w_pkgs := [ex_pkg listed];
-     w_formatter := FGoimports; w_modaux := fun _ => true; w_fs := ex_fs; w_ro := fun _ => false;
+  {| w_cfg := CfgOk; w_roots := []; w_pkgs := [ex_pkg listed];
+     w_tinfo := ex_tinfo; w_modaux := fun _ => true; w_fs := ex_fs; w_ro := fun _ => false;
      w_content := fun _ => B "generated"; w_valid_go := fun _ => true |}.
 
 Example C09_example :
@@ -111,17 +112,16 @@ Proof. vm_compute. repeat split. Qed.
 Definition alias_req (name key : str) : request :=
   {| q_iface := name; q_tstatus := TOk; q_key := key; q_path := [B "m"; B "a"; B "mocks_test.go"];
      q_pkgname := B "a"; q_template := B "testify";
+     q_require_schema := true; q_schema_ok := true; q_force := true; q_formatter := FGoimports;
      q_prep_ok := true; q_data_ok := true; q_exec_ok := true |}.
 Definition alias_world : world :=
-  {| w_cfg := CfgOk; w_roots := []; w_exclude := [];
+  {| w_cfg := CfgOk; w_roots := [];
      w_pkgs := [ {| p_path := B "example.com/m/a"; p_nfiles := 1; p_nerrors := 0;
                     p_decls := [ {| d_name := B "I"; d_reqs := [alias_req (B "I") (B "/m/a/mocks_test.go")] |};
                                  {| d_name := B "J"; d_reqs := [alias_req (B "J") (B "a/mocks_test.go")] |} ];
                     p_listed := [B "I"; B "J"]; p_all := false; p_include := None; p_exclude := None;
-                    p_cfg := {| c_tstatus := TOk; c_tkind := TBuiltin; c_tfound := true; c_tparses := true;
-                                c_require_schema := true; c_schema_ok := true; c_data_ok := true;
-                                c_force := true |} |} ];
-     w_formatter := FGoimports; w_modaux := fun _ => true; w_fs := ex_fs; w_ro := fun _ => false;
+                    p_cfg := ex_cfg |} ];
+     w_tinfo := ex_tinfo; w_modaux := fun _ => true; w_fs := ex_fs; w_ro := fun _ => false;
      w_content := fun k => B "mocks of " ++ k; w_valid_go := fun _ => true |}.
 
 Theorem C09_zero_complete_refuted :
